@@ -47,9 +47,19 @@ def run(tier, seed, replay):
             expect("ConnMon reports %s: %s" % (want_monfail, name), any(x["monfail"] == want_monfail for x in fl))
 
     cs_idx = [i for i, r in enumerate(orows) if r.get("ev") == "cs" and r["s"]["incoming"] == 2]
-    mutate("corrupt-one-snapshot-field", lambda rr: rr[cs_idx[0]]["s"].__setitem__("incoming", 1))
-    ready0 = [i for i, r in enumerate(orows) if r.get("ev") == "ready"][0]   # the handshake before "ready" is not validated
-    acc_idx = [i for i, r in enumerate(orows) if i > ready0 and r.get("ev") == "cs" and r["fn"].endswith("processResult")]
+    cs_idx = [i for i in cs_idx]
+    # only the part of a trace between "ready" and "cleanup" is validated (not the handshake, not the harness' clean-up)
+    live, on = set(), False
+    for i, r in enumerate(orows):
+        if r.get("ev") == "ready":
+            on = True
+        elif r.get("ev") in ("cleanup", "reset"):
+            on = False
+        elif on:
+            live.add(i)
+    acc_idx = [i for i, r in enumerate(orows) if i in live and r.get("ev") == "cs" and r["fn"].endswith("processResult")]
+    cs_live = [i for i in cs_idx if i in live]
+    mutate("corrupt-one-snapshot-field", lambda rr: rr[cs_live[0]]["s"].__setitem__("incoming", 1))
     mutate("drop-one-critical-section", lambda rr: rr.pop(acc_idx[0]))
     we = [i for i, r in enumerate(orows) if r.get("ev") == "wr.end" and r.get("kind") == "resp" and r.get("ref")]
     mutate("swap-response-write-before-its-check", lambda rr: rr.__setitem__(slice(we[0] - 2, we[0] + 1), [rr[we[0]], rr[we[0] - 2], rr[we[0] - 1]]))
